@@ -6,10 +6,11 @@ D(p) == [kind |-> "dir", path |-> p, abs |-> FALSE]
 OutMenuFull == { F(<<"o">>), F(<<".", "o">>), F(<<"d", "..", "o">>), D(<<"d">>), D(<<"d", ".">>), F(<<"d", "x">>), D(<<"d", "e">>),
                  [kind |-> "docker", path |-> <<"img">>, abs |-> FALSE], F(<<"..", "o">>), F(<<"..", "..", "..", "o">>),
                  D(<<"..", "..", "..", "x">>), [kind |-> "file", path |-> <<"abs">>, abs |-> TRUE], D(<<"..", "d">>),
-                 F(<<"..", "..", "SIB", "o">>), D(<<"..", "..", "SIB">>) }
+                 F(<<"..", "..", "SIB", "o">>), D(<<"..", "..", "SIB">>), D(<<"d-c">>), D(<<"..", "d-c">>) }
 OutMenuQuick == { F(<<"o">>), F(<<"d", "..", "o">>), D(<<"d">>), F(<<"d", "x">>), D(<<"d", "e">>),
                   [kind |-> "docker", path |-> <<"img">>, abs |-> FALSE], F(<<"..", "o">>), F(<<"..", "..", "..", "o">>),
-                  D(<<"..", "..", "..", "x">>), D(<<"..", "d">>), F(<<"..", "..", "SIB", "o">>) }
+                  D(<<"..", "..", "..", "x">>), D(<<"..", "d">>), F(<<"..", "..", "SIB", "o">>), D(<<"d-c">>), D(<<"..", "d-c">>) }
+\* "d-c": a sibling of the directory d whose name sorts between "d" and "d/" (no overlap with d or anything below d)
 \* "SIB" is rendered as <name of the workspace directory>-x: from package p the path ../../SIB/o is a sibling of the workspace whose
 \* name has the workspace's name as a string prefix (outside); from p/d it is a directory inside the workspace
 ====
